@@ -118,6 +118,19 @@ def state_of(sk):
     return compat.digest(sk)
 
 
+def observations(kind, sk):
+    """What the public observers answer (for heavy hitters they go through the candidate-set cache,
+    which is per handle and not part of the block)."""
+    if kind == "hh":
+        keys = [k for k, _ in OPS.values()] + [b"seed", b"\x00", b"zz"]
+        return {"top_thr0": sorted((bytes(k), int(c)) for k, c in sk.query(10**6, 0)),
+                "top_default": sorted((bytes(k), int(c)) for k, c in sk.query(10**6)),
+                "point": [int(sk[k[:int(sk.max_key_len)]]) for k in keys], "n": [int(sk.n_added()), int(sk.n_records())]}
+    if kind == "hll":
+        return {"query": float(sk.query())}
+    return {"n": [int(sk.n_added()), int(sk.n_records())]}
+
+
 def listed(name):
     return os.path.exists("/dev/shm/" + name.lstrip("/"))
 
@@ -202,6 +215,12 @@ def replay(report, path, kind, shape, rng, from_file=False):
                     return bad("%s and the owner observe different states" % hname, i)
                 if h is not None and not shape.get("random") and state_of(h) != want:
                     return bad("%s observes a state different from the in-memory twin's" % hname, i)
+                # (not at every step: a query refreshes the handle's cache, and a stale cache must have the
+                # chance to survive until a later query)
+                observe = nm == "attach" or rng.random() < 0.6
+                if observe and h is not None and not shape.get("random") and observations(kind, h) != observations(kind, twin):
+                    return bad("%s answers %s, an ordinary sketch with the same history %s" % (
+                        hname, observations(kind, h), observations(kind, twin)), i)
                 if h is not None and public_params(h) != public_params(twin):
                     return bad("%s has parameters %s, an ordinary sketch of the same arguments %s" % (
                         hname, public_params(h), public_params(twin)), i)
